@@ -214,7 +214,13 @@ fn compile_grammar(
     }
 
     let t1 = Instant::now();
+    #[cfg(llg_verif)]
+    let verif_unoptimized = VERIF_SKIP_OPTIMIZE.with(|c| c.get()).then(|| grammar.clone());
     grammar = grammar.optimize();
+    #[cfg(llg_verif)]
+    if let Some(g) = verif_unoptimized {
+        grammar = g;
+    }
 
     if log_grammar {
         write!(
@@ -237,4 +243,11 @@ fn compile_grammar(
     );
 
     Ok(grammars)
+}
+
+// Verification hook (additive; compiled only with `--cfg llg_verif`): lets the same front-end
+// grammar be compiled with and without the optimiser.
+#[cfg(llg_verif)]
+thread_local! {
+    pub static VERIF_SKIP_OPTIMIZE: std::cell::Cell<bool> = const { std::cell::Cell::new(false) };
 }
